@@ -441,7 +441,7 @@ pub fn check_def() -> PropertyCheck {
   PropertyCheck {
     id: "C09",
     scenarios: vec![Box::new(C09)],
-    runs: (150_000, 30_000_000),
+    runs: (300_000, 30_000_000),
     rule: "case = operator (debounce, throttle_time leading|tailing|all, sample(interval), buffer_with_time, buffer_with_count_and_time) x window {2,5}ms x timed script of <=10 source events with gaps shorter than / equal to / longer than the window and a terminal, each exact tie with a timer deadline run in a chosen order; executor runs as timers fall due; non-trivial = >=2 source events; distinct = distinct (case, behaviour) hashes",
     assumptions: vec!["exact ties between a source event and a timer deadline may be resolved either way (every assignment is tried)"],
   }
